@@ -228,6 +228,30 @@ func c08Run(c *Ctx, capSec int) {
 		}
 	}
 	wg.Wait()
+	// quiet phase for the keys that must never be cached: two probes in a row with nothing else going
+	// on, and the proxy's own cache-hit counter read before and after. "No upstream contact" alone
+	// can also be an exchange that failed locally (a broken transport is not a cache); the counter
+	// tells the two apart.
+	quietHits := map[string]float64{}
+	for _, rk := range rks {
+		if !rk.NeverCached || !b.Proxy.Alive() {
+			continue
+		}
+		if rk.Kind == "silent" && !thorough { // two 6 s time-outs in a row: thorough tier only
+			quietHits[rk.name] = -2
+			continue
+		}
+		m0, ok0 := bedMetric(b, "query_cache_hit_total")
+		for k := 0; k < 2; k++ {
+			b.Exchange("tcp", mkQuery(uint16(7000+k), rk.name, rk.qt, dns.ClassINET, false), xOpts{Timeout: 8 * time.Second})
+		}
+		m1, ok1 := bedMetric(b, "query_cache_hit_total")
+		if ok0 && ok1 {
+			quietHits[rk.name] = m1 - m0
+		} else {
+			quietHits[rk.name] = -1
+		}
+	}
 	close(stopKA)
 	fetches := fetchesOf(b, "pipe")
 	for k, v := range fetchesOf(b, "tcp") {
@@ -305,7 +329,9 @@ func c08Run(c *Ctx, capSec int) {
 				phase = "from-cache"
 			}
 			if rk.NeverCached {
-				if fromCache {
+				if qh, have := quietHits[rk.name]; fromCache && have && qh <= 0 {
+					c.Inconclusive(fmt.Sprintf("[%s] %s: a response arrived without upstream contact, but two probes in a row on the quiet proxy did not move its cache-hit counter (%v): a locally failed exchange, not a cached one", cfgName, rk.name, qh))
+				} else if fromCache {
 					c.Violation("cached-uncacheable:"+rk.Kind, fmt.Sprintf("[%s] %s: a response was served without contacting the upstream although %s replies / failed exchanges must never be cached", cfgName, rk.name, rk.Kind), cs(r))
 				} else {
 					c.Ev.Distinct(cfgName, rk.Kind, "refetched")
